@@ -29,6 +29,8 @@ type c03Emit struct {
 	K         int    `json:"k"`          // how often the peer calls the ack function
 	ReqAtt    int    `json:"req_att"`
 	RepAtt    int    `json:"rep_att"`
+	Volatile  bool   `json:"volatile"` // c2s only: emitted through ClientSocket.Volatile(): discarded instead of buffered while the socket is not connected
+	Shape     int    `json:"shape"` // parameter list of the ack callback: 0 (tok int64, bins []Bin) | 1 (tok *int64, bins []Bin) | 2 (tok int64, bins *[]Bin) | 3 (tok *int64, bins *[]Bin), after err when there is a timeout
 }
 
 type c03Case struct {
@@ -153,10 +155,48 @@ func evalC03(c c03Case) (f *Failure, nontrivial bool) {
 				mu.Unlock()
 			}
 			if pm, _ := catchPanic(func() {
-				if e.TimeoutMs > 0 {
-					em.Timeout(time.Duration(e.TimeoutMs)*time.Millisecond).Emit("req", append(args, func(err error, tok int64, bins []Bin) { record(err, tok, bins) })...)
+				// the reply is (token, attachments); the callback may take either by value or by pointer
+				pt := func(p *int64) int64 {
+					if p == nil {
+						return 0
+					}
+					return *p
+				}
+				pb := func(p *[]Bin) []Bin {
+					if p == nil {
+						return nil
+					}
+					return *p
+				}
+				var withErr, plain any
+				switch e.Shape % 4 {
+				case 0:
+					withErr = func(err error, tok int64, bins []Bin) { record(err, tok, bins) }
+					plain = func(tok int64, bins []Bin) { record(nil, tok, bins) }
+				case 1:
+					withErr = func(err error, tok *int64, bins []Bin) { record(err, pt(tok), bins) }
+					plain = func(tok *int64, bins []Bin) { record(nil, pt(tok), bins) }
+				case 2:
+					withErr = func(err error, tok int64, bins *[]Bin) { record(err, tok, pb(bins)) }
+					plain = func(tok int64, bins *[]Bin) { record(nil, tok, pb(bins)) }
+				case 3:
+					withErr = func(err error, tok *int64, bins *[]Bin) { record(err, pt(tok), pb(bins)) }
+					plain = func(tok *int64, bins *[]Bin) { record(nil, pt(tok), pb(bins)) }
+				}
+				if e.Volatile && e.Dir == "c2s" {
+					// (the emitter chain in both orders)
+					switch {
+					case e.TimeoutMs > 0 && e.Token%2 == 0:
+						cli.Volatile().Timeout(time.Duration(e.TimeoutMs)*time.Millisecond).Emit("req", append(args, withErr)...)
+					case e.TimeoutMs > 0:
+						cli.Timeout(time.Duration(e.TimeoutMs)*time.Millisecond).Volatile().Emit("req", append(args, withErr)...)
+					default:
+						cli.Volatile().Emit("req", append(args, plain)...)
+					}
+				} else if e.TimeoutMs > 0 {
+					em.Timeout(time.Duration(e.TimeoutMs)*time.Millisecond).Emit("req", append(args, withErr)...)
 				} else {
-					em.Emit("req", append(args, func(tok int64, bins []Bin) { record(nil, tok, bins) })...)
+					em.Emit("req", append(args, plain)...)
 				}
 			}); pm != "" {
 				mu.Lock()
@@ -215,10 +255,13 @@ func evalC03(c c03Case) (f *Failure, nontrivial bool) {
 				replies = false // the request or its reply is lost with the network
 			}
 			purged := T > 0 && e.Dir == "c2s" && a < connectedAt && a+T < connectedAt // timed out while still buffered
+			if e.Volatile && e.Dir == "c2s" && a < connectedAt {
+				purged = true // discarded at once: it never reaches the peer; with a timeout its callback gets ErrAckTimeout, once
+			}
 			if purged {
 				replies = false
 				if len(received[e.Token]) > 0 {
-					res = fail("purged-after-timeout", fmt.Sprintf("%s timed out while buffered (socket connected at %v) but the request reached the peer at %v", desc, connectedAt, received[e.Token][0]))
+					res = fail("purged-after-timeout", fmt.Sprintf("%s timed out while buffered, or was volatile and emitted offline (socket connected at %v), but the request reached the peer at %v", desc, connectedAt, received[e.Token][0]))
 					break
 				}
 			}
@@ -348,9 +391,10 @@ func genC03Case(t *rapid.T) c03Case {
 	for i := 0; i < n; i++ {
 		e := c03Emit{Token: int64(i + 1), Dir: rapid.SampledFrom([]string{"c2s", "s2c"}).Draw(t, "dir"), K: rapid.SampledFrom([]int{1, 1, 1, 2, 3, 0}).Draw(t, "k"),
 			ReqAtt: rapid.IntRange(0, 3).Draw(t, "reqAtt"), RepAtt: rapid.IntRange(0, 3).Draw(t, "repAtt"),
-			TimeoutMs: rapid.SampledFrom([]int{0, 1000, 1000, 2000}).Draw(t, "timeout")}
+			TimeoutMs: rapid.SampledFrom([]int{0, 1000, 1000, 2000}).Draw(t, "timeout"), Shape: rapid.SampledFrom([]int{0, 0, 1, 2, 3}).Draw(t, "shape")}
 		if buffered && rapid.Bool().Draw(t, "isBuffered") {
 			e.Dir = "c2s"
+			e.Volatile = rapid.IntRange(0, 2).Draw(t, "volatile") == 0
 			e.AtMs = rapid.IntRange(0, c.ConnectAtMs-100).Draw(t, "at")
 		} else {
 			e.AtMs = base + rapid.IntRange(0, 40).Draw(t, "atAfter")*25
@@ -378,7 +422,7 @@ func TestC03_Acks(t *testing.T) {
 	setT(t)
 	defer startWatchdog(t, 60*time.Second)()
 	ev := NewEv(t, "C03", c03Check, "rapid on the virtual-time rig: 1..8 ack-carrying emits, both directions, several outstanding at once, timeout T in {none, 1 s, 2 s}, the peer replies after "+
-		"{0, 10 ms, T-1ms, T, T+1ms, T+500ms, never} and calls the ack function 0..3 times, 0..3 attachments in request and reply, requests emitted before the client connects (connecting before or "+
+		"{0, 10 ms, T-1ms, T, T+1ms, T+500ms, never} and calls the ack function 0..3 times, 0..3 attachments in request and reply, ack callbacks taking the reply values by value or by pointer, requests emitted before the client connects (connecting before or "+
 		"after T), optional network cut; oracle per emit: callback count <= 1, with a timeout exactly 1 (reply if due before T, ErrAckTimeout if after, either on the exact tie), reply arguments == the "+
 		"peer's FIRST call for that very token, a request that timed out while buffered never reaches the peer, every request reaches the peer at most once; afterwards a fresh round trip each way "+
 		"succeeds / an Emit on the dead socket returns; non-trivial = reply within 1 ms of T, or >= 2 outstanding acks, or a buffered multi-frame request")
